@@ -306,6 +306,34 @@ def end_to_end(ctx, spec, quiet, label, key, variant=None):
             judge_check(ctx, dict(case, via_dir=True), files, walk_order + rest, quiet, code, out, "check_command(dir)")
         except MonitorViolation:
             ctx.violation("threshold_contract", case, {"via": "dir", "why": _C["c"].why})
+        # the same file reached through several arguments (check src src/big.py; check a.py a.py): however often a file is
+        # listed, the summary count must match the listing, every listed row must be a function over 30, and the exit status
+        # follows from the lengths
+        forms = ([os.path.dirname(order[0]), order[0]], [order[0], order[0]], [".", order[-1]])
+        for paths in [forms[spec_variant(spec, quiet) % 3]]:
+            try:
+                code, out = run_check(ctx, root, paths, False, "check_command")
+            except MonitorViolation:
+                ctx.violation("threshold_contract", case, {"via": "overlapping arguments", "why": _C["c"].why})
+                continue
+            ctx.count("monitor.check_command_runs")
+            ctx.count("monitor.overlapping_argument_runs")
+            rows, summary = parse_check_output(out)
+            exp_rows = expected_listing(files, order)
+            exp_set = {(p, L, s, n) for p, L, s, n in exp_rows}
+            got_rows = [(p, L, s, n) for (p, _, _, L, s, n) in rows]
+            ocase = dict(case, paths=paths)
+            if any(r not in exp_set for r in got_rows):
+                ctx.violation("overlap_listing_row_unknown", ocase, {"paths": paths, "observed": got_rows[:6]})
+            reached = [r for r in exp_rows if paths[0] in (".", "") or r[0].startswith(paths[0]) or r[0] == paths[1]]
+            if not set(reached) <= set(got_rows):
+                ctx.violation("overlap_listing_incomplete", ocase, {"paths": paths, "missing": sorted(set(reached) - set(got_rows))[:6]})
+            k = summary[2] if summary else None
+            if summary is None or k != len(got_rows):
+                ctx.violation("overlap_summary_does_not_match_listing", ocase, {"paths": paths, "listed_rows": len(got_rows), "summary": summary})
+            exp_code = 1 if any(L > 60 for (_, L, _, _) in got_rows) else 0
+            if code != exp_code:
+                ctx.violation("exit_status", ocase, {"via": "overlapping arguments", "expected": exp_code, "observed": code})
         if any(L > 15 for _, ls in spec for L in ls):
             ctx.distinct(key)
         findings_and_totals(ctx, root, files, case)
